@@ -304,6 +304,42 @@ func verifC17_MQTTCap() {
 	}
 }
 
+// verifC17_MQTTDeleteEvent: a delete event of the session watch arrives for a connected client
+// (a real admin delete, or a stale event from the id's previous connection while the session
+// has been stored again). Whatever the broker decides to do about it, the clients it counts
+// are exactly the connected ones: a client that stays connected stays registered, so the next
+// CONNECT at the cap is refused; a client that is unregistered has been disconnected.
+func verifC17_MQTTDeleteEvent() {
+	b := vC16Broker(1)
+	c1 := vConnect("a", verifBool("a.cleanSession"), "")
+	go b.handleConn(c1)
+	verifQuiesce()
+	verifAssert(c1.connack == int(packets.Accepted), "connected")
+	clA := b.clients["a"]
+	verifAssert(clA != nil, "registered")
+	if !verifBool("sessionStillInTheStore") {
+		delete(vStore.kv, sessionStoreKey("a")) // a real delete; otherwise the event is stale
+	} else {
+		verifCover("stale-delete-event")
+	}
+	b.deleteSession("a")
+	verifQuiesce()
+	verifAssert(clA.disconnected() || b.clients["a"] == clA, "a-client-that-stays-connected-stays-registered")
+	c2 := vConnect("b", true, "")
+	go b.handleConn(c2)
+	verifQuiesce()
+	alive := 0
+	if !clA.disconnected() {
+		alive++
+	}
+	if c2.connack == int(packets.Accepted) {
+		if clB := b.clients["b"]; clB != nil && !clB.disconnected() {
+			alive++
+		}
+	}
+	verifAssert(alive <= 1, "connected-clients-never-exceed-the-cap")
+}
+
 // ---- persistence of session changes ----------------------------------------------------------
 
 var vEncodeSeq int
